@@ -1075,7 +1075,11 @@ impl<'a> GeneratorState<'a> {
                 let v = self.compiler_state.get_variable(name);
                 match v.var_type {
                     VariableType::CharPtr => {
-                        self.asm(STA, &ExprType::Absolute(name.clone(), true, 0), pos, false)?;
+                        // A strobe is an explicit hardware access: never to be optimized out
+                        self.protected = true;
+                        let r = self.asm(STA, &ExprType::Absolute(name.clone(), true, 0), pos, false);
+                        self.protected = false;
+                        r?;
                         Ok(())
                     }
                     _ => Err(self
@@ -1090,6 +1094,14 @@ impl<'a> GeneratorState<'a> {
     }
 
     fn generate_csleep_statement(&mut self, cycles: i32, pos: usize) -> Result<(), Error> {
+        // Timing code must never be optimized out
+        self.protected = true;
+        let r = self.generate_csleep_statement_ex(cycles, pos);
+        self.protected = false;
+        r
+    }
+
+    fn generate_csleep_statement_ex(&mut self, cycles: i32, pos: usize) -> Result<(), Error> {
         match cycles {
             2 => self.sasm_protected(NOP)?,
             3 => self.asm(
